@@ -196,16 +196,18 @@ def _close(name, a, b):
     return ra == rb
 
 
-def _make_attr(tag, cls, d):
+def _make_attr(tag, cls, d, prop_id="C09"):
     from pptx.oxml.ns import qn
 
     st = d.simple_type
     clark = qn(d.attr_name) if ":" in d.attr_name else d.attr_name
     is_enum = hasattr(st, "__members__")
     for kind in _kinds_for(st):
-        cname = "C09.%s.%s.%s@%s[%s]" % (cls.__module__.replace("pptx.", ""), d.owner.__name__, d.prop_name, d.attr_name, kind)
+        cname = "%s.%s.%s.%s@%s[%s]" % (prop_id, cls.__module__.replace("pptx.", ""), d.owner.__name__, d.prop_name, d.attr_name, kind)
+        if prop_id != "C09":
+            cname += ".rejected_before_written"
 
-        @contract("C09", cname, replay=_replay_attr(cls, tag, d), timeout_ms=30000)
+        @contract(prop_id, cname, replay=_replay_attr(cls, tag, d), timeout_ms=30000)
         def body(c, kind=kind):
             """set then get returns the value (to the quantum); the default / None removes the attribute and the getter
             reports the default; a rejected value changes nothing; no other attribute is touched."""
@@ -225,6 +227,10 @@ def _make_attr(tag, cls, d):
             if out.raised:
                 c.ensures("rejects.only_TypeError_or_ValueError", issubclass(out.exc.exc_cls, (TypeError, ValueError)), exc=repr(out.exc))
                 c.ensures("rejects.nothing_written", e.attrs == before and not e.writes)
+                return
+            if prop_id != "C09":
+                # under C11 only the rejection clause is claimed (the accepted leg is C09's)
+                c.ensures("accepted.out_of_scope_here", True)
                 return
             c.ensures("frame.only_this_attribute", all(w[1] == clark for w in e.writes) and e.attrs.get(other) == "keep")
             removed = clark not in e.attrs
@@ -261,7 +267,7 @@ def _is_true(c, v, default):
     return t
 
 
-def _build_attrs():
+def _build_attrs(prop_id="C09"):
     seen = set()
     for tag, (cls, attrs, kids) in sorted(decls.all_decls().items()):
         for d in attrs:
@@ -269,7 +275,7 @@ def _build_attrs():
             if key in seen:
                 continue
             seen.add(key)
-            _make_attr(tag, cls, d)
+            _make_attr(tag, cls, d, prop_id)
 
 
 _build_attrs()
@@ -711,7 +717,7 @@ def _domains():
     put("Font", "language_id", vals=[MSO_LANGUAGE_ID.FRENCH, MSO_LANGUAGE_ID.ENGLISH_US, MSO_LANGUAGE_ID.POLISH], none=MSO_LANGUAGE_ID.NONE, group=fg)
     put("LineFormat", "width", vals=[Pt(2.5), Emu(0), Emu(20116800), Emu(12700), Emu(1)], group=("width", "dash_style"))
     put("LineFormat", "dash_style", vals=[MSO_LINE_DASH_STYLE.DASH, MSO_LINE_DASH_STYLE.SOLID, MSO_LINE_DASH_STYLE.ROUND_DOT, MSO_LINE_DASH_STYLE.LONG_DASH_DOT], none=None, group=("width", "dash_style"))
-    put("_BasePicture", ("crop_left", "crop_right", "crop_top", "crop_bottom"), vals=[0.0, 0.25, -0.1, 1.0, 0.33333], tol=1e-5, group=("crop_left", "crop_right", "crop_top", "crop_bottom"))
+    put("_BasePicture", ("crop_left", "crop_right", "crop_top", "crop_bottom"), vals=[0.0, 0.25, -0.1, 1.0, 0.33333, 0.1, -0.25], tol=1e-5, group=("crop_left", "crop_right", "crop_top", "crop_bottom"))
     put("Picture", "auto_shape_type", vals=[MSO_SHAPE.OVAL, MSO_SHAPE.RECTANGLE, MSO_SHAPE.ROUNDED_RECTANGLE, MSO_SHAPE.ISOSCELES_TRIANGLE])
     put("Chart", "chart_style", vals=[1, 48, 10, 2], none=None, group=("chart_style", "has_legend", "has_title"))
     put("Chart", ("has_legend", "has_title"), vals=bools + [True], group=("chart_style", "has_legend", "has_title"))
@@ -908,6 +914,43 @@ def _native_setget_sweep(tier="quick", seed=0):
                     found.setdefault("%s.%s:changes-%s" % (k[0], n, ch[0]), "%s: %s.%s = %r changed the reading of %s from %r to %r" % (label, cls, n, v, ch[0], before[ch[0]], after[ch[0]]))
                     break
                 first = got
+        # two properties of one object, every (or a sample of the) value pairs, in both orders: each keeps its own value
+        done = set()
+        for o, n, k in tg:
+            spec = D[k]
+            ident = (id(getattr(o, "_element", o)), type(o).__name__)
+            if ident in done or len(spec.get("group", ())) < 2:
+                continue
+            done.add(ident)
+            props = [(a, D[key_of(o, a)]) for a in spec["group"] if hasattr(type(o), a) and key_of(o, a) in D and not D[key_of(o, a)].get("may_refuse")]
+            usable = []
+            for a, sp in props:
+                try:
+                    prepare(o, key_of(o, a))
+                    getattr(o, a)
+                    usable.append((a, sp))
+                except Exception:
+                    pass
+            combos = [(a, va, b, vb) for a, sa in usable for b, sb in usable if a != b for va in sa["vals"] for vb in sb["vals"]]
+            if len(combos) > 600:
+                combos = rnd.sample(combos, 600)
+            for a, va, b, vb in combos:
+                evals[0] += 1
+                try:
+                    setattr(o, a, va)
+                    setattr(o, b, vb)
+                    ga, gb = getattr(o, a), getattr(o, b)
+                except Exception as e:
+                    found.setdefault("%s.%s+%s:raises" % (type(o).__name__, a, b), "%s: %s.%s = %r then .%s = %r raised %r" % (label, type(o).__name__, a, va, b, vb, e))
+                    break
+                ta, tb = D[key_of(o, a)].get("tol", 0), D[key_of(o, b)].get("tol", 0)
+                fs = lambda kk, v, g: kk == ("Font", "size") and g is not None and 0 <= int(v) - int(g) < 127
+                if not (_same(ga, va, ta) or fs(key_of(o, a), va, ga)):
+                    found.setdefault("%s.%s:changed-by-%s" % (key_of(o, a)[0], a, b), "%s: %s.%s = %r then .%s = %r: %s now reads %r" % (label, type(o).__name__, a, va, b, vb, a, ga))
+                    break
+                if not (_same(gb, vb, tb) or fs(key_of(o, b), vb, gb)):
+                    found.setdefault("%s.%s:reads-back-differently-after-%s" % (key_of(o, b)[0], b, a), "%s: %s.%s = %r then .%s = %r reads back %r" % (label, type(o).__name__, a, va, b, vb, gb))
+                    break
         return None
 
     def scalars(prs):
